@@ -6,11 +6,40 @@ use super::ast::*;
 use super::lexer::{Lexer, Token, TokenKind};
 use grafeo_common::utils::error::{QueryError, QueryErrorKind, Result};
 
+/// Deepest nesting of expressions the parser follows.
+///
+/// The parser is recursive descent and every later stage (translator, binder, optimizer,
+/// planner, `Drop`) walks the tree recursively as well, so unbounded nesting in the query
+/// text overflows the stack, which aborts the process instead of returning an error. One
+/// level of parentheses costs the parser several KiB of stack in a debug build, so 128
+/// levels stay well inside the 2 MiB stack of a spawned thread.
+const MAX_NESTING_DEPTH: usize = 128;
+
+/// Tallest expression tree the parser builds.
+///
+/// Operator chains such as `a AND b AND c` or `a.b.c` nest to the left without any
+/// recursion in the parser, so they are bounded through the height of the tree they
+/// produce rather than through the nesting depth.
+const MAX_EXPRESSION_DEPTH: usize = 256;
+
+/// Most clauses, pattern elements and SET/REMOVE/DELETE items in one statement.
+///
+/// Each of them becomes (at least) one operator stacked on top of the previous ones in the
+/// query plan, which the later stages again walk recursively.
+const MAX_STATEMENT_PARTS: usize = 2048;
+
 /// Cypher query parser.
 pub struct Parser<'a> {
     lexer: Lexer<'a>,
     current: Token,
     previous: Token,
+    /// Number of nested productions currently being parsed.
+    depth: usize,
+    /// Height of the tallest expression tree completed since the enclosing tree node was
+    /// started (see `begin_node`).
+    height: usize,
+    /// Number of clauses and pattern elements parsed so far.
+    parts: usize,
 }
 
 impl<'a> Parser<'a> {
@@ -27,7 +56,53 @@ impl<'a> Parser<'a> {
             lexer,
             current,
             previous,
+            depth: 0,
+            height: 0,
+            parts: 0,
         }
+    }
+
+    /// Enters a production that can contain itself; pair with `leave`.
+    fn enter(&mut self) -> Result<()> {
+        if self.depth >= MAX_NESTING_DEPTH {
+            return Err(self.error("Expression nested too deeply"));
+        }
+        self.depth += 1;
+        Ok(())
+    }
+
+    /// Leaves a production entered with `enter`.
+    fn leave(&mut self) {
+        self.depth -= 1;
+    }
+
+    /// Starts a node of the expression tree: the operands parsed from here on are its
+    /// children. Returns the height recorded for the node's siblings, for `end_node`.
+    fn begin_node(&mut self) -> usize {
+        std::mem::take(&mut self.height)
+    }
+
+    /// Puts one node on top of the operands parsed since `begin_node`.
+    fn grow(&mut self) -> Result<()> {
+        if self.height >= MAX_EXPRESSION_DEPTH {
+            return Err(self.error("Expression nested too deeply"));
+        }
+        self.height += 1;
+        Ok(())
+    }
+
+    /// Ends the node started by the `begin_node` that returned `siblings`.
+    fn end_node(&mut self, siblings: usize) {
+        self.height = self.height.max(siblings);
+    }
+
+    /// Counts one more clause, pattern element or SET/REMOVE/DELETE item.
+    fn count_part(&mut self) -> Result<()> {
+        if self.parts >= MAX_STATEMENT_PARTS {
+            return Err(self.error("Query has too many clauses and pattern elements"));
+        }
+        self.parts += 1;
+        Ok(())
     }
 
     /// Parses the query into a statement.
@@ -44,6 +119,9 @@ impl<'a> Parser<'a> {
         let mut clauses = Vec::new();
 
         loop {
+            if clauses.len() >= MAX_STATEMENT_PARTS {
+                return Err(self.error("Query has too many clauses and pattern elements"));
+            }
             match self.current.kind {
                 TokenKind::Match => {
                     clauses.push(Clause::Match(self.parse_match_clause()?));
@@ -240,9 +318,11 @@ impl<'a> Parser<'a> {
 
         self.expect(TokenKind::Delete)?;
 
+        self.count_part()?;
         let mut expressions = vec![self.parse_expression()?];
         while self.current.kind == TokenKind::Comma {
             self.advance();
+            self.count_part()?;
             expressions.push(self.parse_expression()?);
         }
 
@@ -266,6 +346,7 @@ impl<'a> Parser<'a> {
     }
 
     fn parse_set_item(&mut self) -> Result<SetItem> {
+        self.count_part()?;
         let variable = self.expect_identifier()?;
 
         if self.current.kind == TokenKind::Dot {
@@ -321,6 +402,7 @@ impl<'a> Parser<'a> {
     }
 
     fn parse_remove_item(&mut self) -> Result<RemoveItem> {
+        self.count_part()?;
         let variable = self.expect_identifier()?;
 
         if self.current.kind == TokenKind::Dot {
@@ -501,6 +583,7 @@ impl<'a> Parser<'a> {
 
     fn parse_node_pattern(&mut self) -> Result<NodePattern> {
         self.expect(TokenKind::LParen)?;
+        self.count_part()?;
 
         // Variable can be an identifier or a contextual keyword like 'end'
         let variable = if self.can_be_identifier() && self.current.kind != TokenKind::Colon {
@@ -534,6 +617,8 @@ impl<'a> Parser<'a> {
     }
 
     fn parse_relationship_pattern(&mut self) -> Result<RelationshipPattern> {
+        self.count_part()?;
+
         // Parse direction and relationship details
         let (direction, has_bracket) = match self.current.kind {
             TokenKind::Arrow => {
@@ -688,6 +773,10 @@ impl<'a> Parser<'a> {
             props.push(self.parse_property_pair()?);
             while self.current.kind == TokenKind::Comma {
                 self.advance();
+                // In a MATCH every entry becomes one more operand of an AND chain
+                if props.len() >= MAX_STATEMENT_PARTS {
+                    return Err(self.error("Property map has too many entries"));
+                }
                 props.push(self.parse_property_pair()?);
             }
         }
@@ -705,55 +794,73 @@ impl<'a> Parser<'a> {
 
     // Expression parsing with precedence climbing
     fn parse_expression(&mut self) -> Result<Expression> {
-        self.parse_or_expression()
+        self.enter()?;
+        let expression = self.parse_or_expression();
+        self.leave();
+        expression
     }
 
     fn parse_or_expression(&mut self) -> Result<Expression> {
+        let siblings = self.begin_node();
         let mut left = self.parse_xor_expression()?;
         while self.current.kind == TokenKind::Or {
             self.advance();
             let right = self.parse_xor_expression()?;
+            self.grow()?;
             left = Expression::Binary {
                 left: Box::new(left),
                 op: BinaryOp::Or,
                 right: Box::new(right),
             };
         }
+        self.end_node(siblings);
         Ok(left)
     }
 
     fn parse_xor_expression(&mut self) -> Result<Expression> {
+        let siblings = self.begin_node();
         let mut left = self.parse_and_expression()?;
         while self.current.kind == TokenKind::Xor {
             self.advance();
             let right = self.parse_and_expression()?;
+            self.grow()?;
             left = Expression::Binary {
                 left: Box::new(left),
                 op: BinaryOp::Xor,
                 right: Box::new(right),
             };
         }
+        self.end_node(siblings);
         Ok(left)
     }
 
     fn parse_and_expression(&mut self) -> Result<Expression> {
+        let siblings = self.begin_node();
         let mut left = self.parse_not_expression()?;
         while self.current.kind == TokenKind::And {
             self.advance();
             let right = self.parse_not_expression()?;
+            self.grow()?;
             left = Expression::Binary {
                 left: Box::new(left),
                 op: BinaryOp::And,
                 right: Box::new(right),
             };
         }
+        self.end_node(siblings);
         Ok(left)
     }
 
     fn parse_not_expression(&mut self) -> Result<Expression> {
         if self.current.kind == TokenKind::Not {
             self.advance();
-            let operand = self.parse_not_expression()?;
+            self.enter()?;
+            let siblings = self.begin_node();
+            let operand = self.parse_not_expression();
+            self.leave();
+            let operand = operand?;
+            self.grow()?;
+            self.end_node(siblings);
             Ok(Expression::Unary {
                 op: UnaryOp::Not,
                 operand: Box::new(operand),
@@ -764,6 +871,13 @@ impl<'a> Parser<'a> {
     }
 
     fn parse_comparison_expression(&mut self) -> Result<Expression> {
+        let siblings = self.begin_node();
+        let expression = self.parse_comparison_chain()?;
+        self.end_node(siblings);
+        Ok(expression)
+    }
+
+    fn parse_comparison_chain(&mut self) -> Result<Expression> {
         let mut left = self.parse_additive_expression()?;
 
         loop {
@@ -779,6 +893,7 @@ impl<'a> Parser<'a> {
                     self.advance();
                     self.expect(TokenKind::With)?;
                     let right = self.parse_additive_expression()?;
+                    self.grow()?;
                     left = Expression::Binary {
                         left: Box::new(left),
                         op: BinaryOp::StartsWith,
@@ -790,6 +905,7 @@ impl<'a> Parser<'a> {
                     self.advance();
                     self.expect(TokenKind::With)?;
                     let right = self.parse_additive_expression()?;
+                    self.grow()?;
                     left = Expression::Binary {
                         left: Box::new(left),
                         op: BinaryOp::EndsWith,
@@ -800,6 +916,7 @@ impl<'a> Parser<'a> {
                 TokenKind::Contains => {
                     self.advance();
                     let right = self.parse_additive_expression()?;
+                    self.grow()?;
                     left = Expression::Binary {
                         left: Box::new(left),
                         op: BinaryOp::Contains,
@@ -815,6 +932,7 @@ impl<'a> Parser<'a> {
                         self.advance();
                     }
                     self.expect(TokenKind::Null)?;
+                    self.grow()?;
                     left = Expression::Unary {
                         op: if not {
                             UnaryOp::IsNotNull
@@ -830,6 +948,7 @@ impl<'a> Parser<'a> {
 
             self.advance();
             let right = self.parse_additive_expression()?;
+            self.grow()?;
             left = Expression::Binary {
                 left: Box::new(left),
                 op,
@@ -841,6 +960,7 @@ impl<'a> Parser<'a> {
     }
 
     fn parse_additive_expression(&mut self) -> Result<Expression> {
+        let siblings = self.begin_node();
         let mut left = self.parse_multiplicative_expression()?;
 
         loop {
@@ -852,6 +972,7 @@ impl<'a> Parser<'a> {
 
             self.advance();
             let right = self.parse_multiplicative_expression()?;
+            self.grow()?;
             left = Expression::Binary {
                 left: Box::new(left),
                 op,
@@ -859,10 +980,12 @@ impl<'a> Parser<'a> {
             };
         }
 
+        self.end_node(siblings);
         Ok(left)
     }
 
     fn parse_multiplicative_expression(&mut self) -> Result<Expression> {
+        let siblings = self.begin_node();
         let mut left = self.parse_power_expression()?;
 
         loop {
@@ -875,6 +998,7 @@ impl<'a> Parser<'a> {
 
             self.advance();
             let right = self.parse_power_expression()?;
+            self.grow()?;
             left = Expression::Binary {
                 left: Box::new(left),
                 op,
@@ -882,15 +1006,21 @@ impl<'a> Parser<'a> {
             };
         }
 
+        self.end_node(siblings);
         Ok(left)
     }
 
     fn parse_power_expression(&mut self) -> Result<Expression> {
+        let siblings = self.begin_node();
         let mut left = self.parse_unary_expression()?;
 
         if self.current.kind == TokenKind::Caret {
             self.advance();
-            let right = self.parse_power_expression()?; // Right associative
+            self.enter()?;
+            let right = self.parse_power_expression(); // Right associative
+            self.leave();
+            let right = right?;
+            self.grow()?;
             left = Expression::Binary {
                 left: Box::new(left),
                 op: BinaryOp::Pow,
@@ -898,32 +1028,32 @@ impl<'a> Parser<'a> {
             };
         }
 
+        self.end_node(siblings);
         Ok(left)
     }
 
     fn parse_unary_expression(&mut self) -> Result<Expression> {
-        match self.current.kind {
-            TokenKind::Minus => {
-                self.advance();
-                let operand = self.parse_unary_expression()?;
-                Ok(Expression::Unary {
-                    op: UnaryOp::Neg,
-                    operand: Box::new(operand),
-                })
-            }
-            TokenKind::Plus => {
-                self.advance();
-                let operand = self.parse_unary_expression()?;
-                Ok(Expression::Unary {
-                    op: UnaryOp::Pos,
-                    operand: Box::new(operand),
-                })
-            }
-            _ => self.parse_postfix_expression(),
-        }
+        let op = match self.current.kind {
+            TokenKind::Minus => UnaryOp::Neg,
+            TokenKind::Plus => UnaryOp::Pos,
+            _ => return self.parse_postfix_expression(),
+        };
+        self.advance();
+        self.enter()?;
+        let siblings = self.begin_node();
+        let operand = self.parse_unary_expression();
+        self.leave();
+        let operand = operand?;
+        self.grow()?;
+        self.end_node(siblings);
+        Ok(Expression::Unary {
+            op,
+            operand: Box::new(operand),
+        })
     }
 
     fn parse_postfix_expression(&mut self) -> Result<Expression> {
+        let siblings = self.begin_node();
         let mut expr = self.parse_primary_expression()?;
 
         loop {
@@ -931,6 +1061,7 @@ impl<'a> Parser<'a> {
                 TokenKind::Dot => {
                     self.advance();
                     let property = self.expect_identifier()?;
+                    self.grow()?;
                     expr = Expression::PropertyAccess {
                         base: Box::new(expr),
                         property,
@@ -940,6 +1071,7 @@ impl<'a> Parser<'a> {
                     self.advance();
                     let index = self.parse_expression()?;
                     self.expect(TokenKind::RBracket)?;
+                    self.grow()?;
                     expr = Expression::IndexAccess {
                         base: Box::new(expr),
                         index: Box::new(index),
@@ -949,10 +1081,35 @@ impl<'a> Parser<'a> {
             }
         }
 
+        self.end_node(siblings);
         Ok(expr)
     }
 
+    /// Parses a primary expression. The ones with operands of their own (function calls,
+    /// lists, maps, CASE) are one node of the expression tree on top of their operands.
     fn parse_primary_expression(&mut self) -> Result<Expression> {
+        if self.current.kind == TokenKind::LParen {
+            // Parentheses group, they are no node of their own
+            self.advance();
+            let expr = self.parse_expression()?;
+            self.expect(TokenKind::RParen)?;
+            return Ok(expr);
+        }
+
+        let siblings = self.begin_node();
+        let expression = self.parse_primary_node()?;
+        match expression {
+            Expression::FunctionCall { .. }
+            | Expression::List(_)
+            | Expression::Map(_)
+            | Expression::Case { .. } => self.grow()?,
+            _ => {}
+        }
+        self.end_node(siblings);
+        Ok(expression)
+    }
+
+    fn parse_primary_node(&mut self) -> Result<Expression> {
         match self.current.kind {
             TokenKind::Null => {
                 self.advance();
@@ -1023,12 +1180,6 @@ impl<'a> Parser<'a> {
                 } else {
                     Ok(Expression::Variable(name))
                 }
-            }
-            TokenKind::LParen => {
-                self.advance();
-                let expr = self.parse_expression()?;
-                self.expect(TokenKind::RParen)?;
-                Ok(expr)
             }
             TokenKind::LBracket => {
                 // List literal
@@ -2140,5 +2291,105 @@ mod tests {
         // This is a valid Cypher query without RETURN (for side effects)
         // so we test something else
         parse_err("RETURN RETURN");
+    }
+
+    // ==================== Nesting Limit Tests ====================
+
+    fn limit_error(query: &str) -> String {
+        let mut parser = Parser::new(query);
+        match parser.parse() {
+            Ok(_) => panic!("expected a nesting error"),
+            // The rendered error may quote the query, keep only the message line
+            Err(e) => e.to_string().lines().next().unwrap_or_default().to_string(),
+        }
+    }
+
+    #[test]
+    fn test_deeply_nested_expression_is_an_error() {
+        // Moderate nesting still parses
+        parse_ok(&format!("RETURN {}1{}", "(".repeat(100), ")".repeat(100)));
+
+        // Every nesting production reports an error instead of overflowing the stack
+        let n = 100_000;
+        for query in [
+            format!("RETURN {}1{}", "(".repeat(n), ")".repeat(n)),
+            format!("RETURN {}{}", "[".repeat(n), "]".repeat(n)),
+            format!("RETURN {}1{}", "{a: ".repeat(n), "}".repeat(n)),
+            format!("RETURN {}1{}", "abs(".repeat(n), ")".repeat(n)),
+            format!("RETURN {}1{}", "count(".repeat(n), ")".repeat(n)),
+            format!(
+                "RETURN {}1{}",
+                "CASE WHEN true THEN ".repeat(n),
+                " END".repeat(n)
+            ),
+            format!("MATCH (n) WHERE {}n.age > 1 RETURN n", "NOT ".repeat(n)),
+            format!("RETURN {}1", "- ".repeat(n)),
+            format!("RETURN {}", vec!["2"; n].join("^")),
+            format!("RETURN [1]{}{}", "[0".repeat(n), "]".repeat(n)),
+            format!(
+                "MATCH (n {{a: {}{}}}) RETURN n",
+                "[".repeat(n),
+                "]".repeat(n)
+            ),
+        ] {
+            let message = limit_error(&query);
+            assert!(message.contains("nested too deeply"), "{message}");
+        }
+    }
+
+    #[test]
+    fn test_long_operator_chain_is_an_error() {
+        // A chain within the limit keeps its left-deep shape
+        parse_ok(&format!(
+            "MATCH (n) WHERE {} RETURN n",
+            vec!["n.a = 1"; 200].join(" OR ")
+        ));
+
+        for op in [" AND ", " OR ", " XOR ", " = ", " + ", " * "] {
+            let query = format!("RETURN {}", vec!["1"; 100_000].join(op));
+            let message = limit_error(&query);
+            assert!(message.contains("nested too deeply"), "{message}");
+        }
+        for query in [
+            format!("MATCH (a) RETURN a{}", ".b".repeat(100_000)),
+            format!("RETURN [1]{}", "[0]".repeat(100_000)),
+            format!("MATCH (a) RETURN a.x{}", " IS NULL".repeat(100_000)),
+        ] {
+            let message = limit_error(&query);
+            assert!(message.contains("nested too deeply"), "{message}");
+        }
+
+        // Chains inside nested parentheses add up
+        let query = format!("RETURN {}1{}", "(".repeat(100), ")+1+1+1".repeat(100));
+        let message = limit_error(&query);
+        assert!(message.contains("nested too deeply"), "{message}");
+
+        // Siblings do not add up
+        parse_ok(&format!(
+            "RETURN [{}]",
+            vec!["abs(1 + 2)"; 10_000].join(", ")
+        ));
+    }
+
+    #[test]
+    fn test_too_many_clauses_is_an_error() {
+        parse_ok(&format!(
+            "MATCH (a){} RETURN a",
+            "-[:KNOWS]->()".repeat(100)
+        ));
+
+        for query in [
+            format!("MATCH (a){} RETURN a", "-[:KNOWS]->()".repeat(100_000)),
+            format!("{}RETURN a", "MATCH (a) ".repeat(100_000)),
+            format!("MATCH (a) {}RETURN a", "WITH a ".repeat(100_000)),
+            format!("MATCH (a) {}RETURN a", "WHERE true ".repeat(100_000)),
+            format!("MATCH (a) RETURN a {}", "LIMIT 1 ".repeat(100_000)),
+            format!("{}RETURN 1", "UNWIND [1] AS x ".repeat(100_000)),
+            format!("MATCH (a) SET {}", vec!["a.p = 1"; 100_000].join(", ")),
+            format!("CREATE {}", vec!["(:L)"; 100_000].join(", ")),
+        ] {
+            let message = limit_error(&query);
+            assert!(message.contains("too many clauses"), "{message}");
+        }
     }
 }
